@@ -46,6 +46,49 @@ func VerifHopWrite() {
 	vCover("end")
 }
 
+// verifWildObs picks the source per destination, as a host does for a socket bound to the
+// unspecified address: loopback destinations get the loopback address, others the host's.
+type verifWildObs struct{ verifRecObs }
+
+func (o *verifWildObs) determineSourceIP(locIP, dstIP net.IP) net.IP {
+	if locIP != nil && !locIP.IsUnspecified() {
+		return locIP
+	}
+	if dstIP.IsLoopback() {
+		return net.IP{127, 0, 0, 1}
+	}
+	return net.IP{10, 0, 0, 1}
+}
+
+// VerifHopWriteWild: two writes on one socket bound to the unspecified address, each to a
+// loopback or a remote destination (symbolic): every datagram shows the source the host
+// selects for *its* destination, so that a reply to that source reaches the sender.
+func VerifHopWriteWild() {
+	obs := &verifWildObs{}
+	conn, err := newUDPConn(&net.UDPAddr{IP: net.IP{0, 0, 0, 0}, Port: 5000}, nil, obs)
+	vAssert(err == nil, "C01: socket is created")
+	for i := 0; i < 2; i++ {
+		dst := &net.UDPAddr{IP: net.IP{10, 0, 0, 2}, Port: 7000 + i}
+		loop := vBool("loopback", i)
+		if loop {
+			dst = &net.UDPAddr{IP: net.IP{127, 0, 0, 1}, Port: 6000 + i}
+		}
+		_, werr := conn.WriteTo([]byte{byte(i)}, dst)
+		vAssert(werr == nil && len(obs.got) == i+1, "C01: one write hands exactly one datagram to the network")
+		if len(obs.got) != i+1 {
+			return
+		}
+		c := obs.got[i].(*chunkUDP)
+		want := net.IP{10, 0, 0, 1}
+		if loop {
+			want = net.IP{127, 0, 0, 1}
+		}
+		vAssert(c.sourceIP.Equal(want) && c.sourcePort == 5000, "C01: a datagram from a socket bound to the unspecified address shows the source selected for its own destination")
+		vAssert(c.destinationIP.Equal(dst.IP) && c.destinationPort == dst.Port, "C01: the datagram is addressed to the destination given to the write")
+	}
+	vCover("end")
+}
+
 // VerifHopQueue: chunkQueue is a FIFO (k operations push / pop / peek, symbolic choice).
 func VerifHopQueue() {
 	k := vParam("k")
